@@ -311,3 +311,1000 @@ Qed.
 
 Lemma ems_require_requested p : (p =? g11_ems_require) = true -> ems_requested p = true.
 Proof. unfold ems_requested. intro H. rewrite H. apply orb_true_r. Qed.
+
+(* ------------------------------------------------------------------ the DTLS 1.2 server flight *)
+
+Ltac rstepn H a E := apply rbind_ok in H; destruct H as [a [E H]].
+
+Lemma hd_In (l : list N) : hd 0 l <> 0 -> In (hd 0 l) l.
+Proof. destruct l; cbn; [congruence | auto]. Qed.
+
+Record server12_sound (k : conn) (ss : list N) (h : hello) (f : server_flight) : Prop := {
+  s12_version : f_version f = v12;
+  s12_suite_local : In (f_suite f) ss;
+  s12_suite_offered : In (f_suite f) (h_suites h);
+  s12_suite_version : s_supports (f_suite f) v12 = true;
+  s12_group : f_group f <> 0 ->
+              In (f_group f) (k_curves k) /\ f_group f <> g11_curve_mlkem /\
+              (forall gs, h_groups h = Some gs -> In (f_group f) gs);
+  s12_group_suite : f_group f <> 0 -> (s_auth (f_suite f) =? g11_auth_certificate) || s_ecdhe (f_suite f) = true;
+  s12_sig : f_sig f <> 0 -> In (f_sig f) (k_sigs k) /\ sig_fits false (c_key (k_cfg k)) (f_sig f) = true;
+  s12_cert : f_cert f = true -> c_key (k_cfg k) <> 0 /\ (s_auth (f_suite f) =? g11_auth_certificate) = true /\ f_sig f <> 0;
+  s12_srtp : f_srtp f <> 0 ->
+             In (f_srtp f) (c_srtp (k_cfg k)) /\
+             exists ps mk, h_srtp h = Some (ps, mk) /\ In (f_srtp f) ps /\ f_mki_peer f = mk /\
+                           (f_mki_echo f = [] \/ f_mki_echo f = mk);
+  s12_srtp_none : f_srtp f = 0 -> h_srtp h = None /\ c_srtp (k_cfg k) = [];
+  s12_alpn : f_alpn f <> 0 -> In (f_alpn f) (c_alpn (k_cfg k)) /\ In (f_alpn f) (h_alpn h);
+  s12_ems_required : (c_ems (k_cfg k) =? g11_ems_require) = true -> f_ems_ext f = true;
+  s12_ems_ext : f_ems_ext f = true -> h_ems h = true /\ f_ems f = true;
+  s12_exts : validate_response_exts h (f_sh_exts f) = true;
+  s12_cid : f_cid_ext f = server_cid h (k_cfg k);
+  s12_resumed : f_resumed f = true -> f_group f = 0 /\ f_sig f = 0 /\ f_cert f = false /\ f_cert_req f = false
+}.
+
+Lemma server12_spec k ss h r f : server12 k ss h r = ROk f -> server12_sound k ss h f.
+Proof.
+  unfold server12. cbv zeta. intro H.
+  rstepn H u0 E. rstepn H suite E0. rstepn H group E1. rstepn H u2 E2. rstepn H tr E3.
+  destruct tr as [[profile echo] peer]. cbn beta iota in H.
+  rstepn H proto E4. rstepn H u5 E5.
+  apply of_opt_ok in E0. apply first_common_some in E0. destruct E0 as [Hoff Hloc].
+  apply filter_In in Hoff. destruct Hoff as [Hoff Hv]. apply filter_In in Hoff. destruct Hoff as [Hoff _].
+  apply req_ok in E2. apply if_ok in E5.
+  assert (Hgroup : group <> 0 -> In group (k_curves k) /\ group <> g11_curve_mlkem /\
+                              (forall gs, h_groups h = Some gs -> In group gs)).
+  { intro Hx. destruct (h_groups h) as [gs|] eqn:Eg.
+    - apply of_opt_ok in E1. apply select_curve_some in E1. destruct E1 as [G1 [G2 G3]].
+      repeat split; try assumption. intros gs' Hgs. inversion Hgs; subst. exact G1.
+    - inversion E1; subst. apply hd_In in Hx. apply curves12_In in Hx. destruct Hx as [G1 G2].
+      repeat split; try assumption. intros gs' Hgs. discriminate. }
+  assert (Hsrtp : profile <> 0 -> In profile (c_srtp (k_cfg k)) /\
+            exists ps mk, h_srtp h = Some (ps, mk) /\ In profile ps /\ peer = mk /\ (echo = [] \/ echo = mk)).
+  { intro Hp. apply negotiate_srtp_ok in E3. destruct E3 as [[Hz _]|[_ [ps [mk [Ho [Hl [Hps [Hm He]]]]]]]]; [congruence|].
+    split; [exact Hl|]. exists ps, mk. repeat split; try assumption. destruct He as [He|[He _]]; auto. }
+  assert (Hsrtp0 : profile = 0 -> h_srtp h = None /\ c_srtp (k_cfg k) = []).
+  { intro Hp. apply negotiate_srtp_ok in E3. destruct E3 as [[_ [Ho [Hl _]]]|[Hnz _]]; [now split | congruence]. }
+  assert (Halpn : proto <> 0 -> In proto (c_alpn (k_cfg k)) /\ In proto (h_alpn h)).
+  { intro Hp. now apply (alpn_select_ok _ _ _ E4). }
+  assert (Hemsreq : (c_ems (k_cfg k) =? g11_ems_require) = true ->
+                    ems_requested (c_ems (k_cfg k)) && (h_ems h && negb (c_ems (k_cfg k) =? g11_ems_disable)) = true).
+  { intro Hr. rewrite Hr in E2. cbn in E2. rewrite E2. now rewrite (ems_require_requested _ Hr). }
+  assert (Hemsext : ems_requested (c_ems (k_cfg k)) && (h_ems h && negb (c_ems (k_cfg k) =? g11_ems_disable)) = true ->
+                    h_ems h = true /\ h_ems h && negb (c_ems (k_cfg k) =? g11_ems_disable) = true).
+  { intro Hx. apply andb_true_iff in Hx. destruct Hx as [_ Hx]. split; [|exact Hx].
+    apply andb_true_iff in Hx. tauto. }
+  destruct (r && h_session h && c_store (k_cfg k)) eqn:Eres.
+  - inversion H; subst; clear H. constructor; cbn; try assumption; try congruence; try tauto.
+  - destruct (s_auth suite =? g11_auth_certificate) eqn:Ecert.
+    + rstepn H u6 E6. rstepn H sg E7. inversion H; subst; clear H.
+      apply req_ok in E6. apply negb_true_iff, N.eqb_neq in E6.
+      apply of_opt_ok in E7. apply select_sig_some in E7.
+      constructor; cbn; try assumption; try congruence; try tauto; try (intros _; rewrite Ecert; reflexivity).
+      intros _. split; [exact E6|]. split; [exact Ecert|].
+      destruct E7 as [E7 E8]. intro Hz. subst. unfold sig_fits, sig_info in E8.
+      destruct (lookup 0 g11_sigs) eqn:El; [|discriminate]. vm_compute in El. discriminate.
+    + inversion H; subst; clear H.
+      destruct (s_ecdhe suite) eqn:Ee; constructor; cbn; rewrite ?Ee; try assumption; try congruence; try tauto;
+        try (intros _; apply orb_true_r).
+Qed.
+
+(* ------------------------------------------------------------------ the DTLS 1.3 server flight *)
+
+(* a parsed hello is consistent: a payload is only present together with its extension type *)
+Definition hello_wf (h : hello) : Prop :=
+  (h_versions h <> [] -> In g11_ext_supported_versions (h_exts h)) /\
+  (h_shares h <> [] -> In g11_ext_key_share (h_exts h)) /\
+  (h_cid h <> None -> In g11_ext_connection_id (h_exts h)) /\
+  (h_srtp h <> None -> In g11_ext_use_srtp (h_exts h)).
+
+Lemma validate_response_exts_spec h l :
+  validate_response_exts h l = true <->
+  (forall e, In e l -> In e (h_exts h) \/ (e = g11_ext_renegotiation_info /\ h_scsv h = true)).
+Proof.
+  unfold validate_response_exts. rewrite forallb_forall. split; intros H e He; specialize (H e He).
+  - apply orb_true_iff in H. destruct H as [H|H]; [left; now apply mem_In|].
+    apply andb_true_iff in H. destruct H as [H1 H2]. apply N.eqb_eq in H1. now right.
+  - apply orb_true_iff. destruct H as [H|[H1 H2]]; [left; now apply mem_In|].
+    right. apply andb_true_iff. split; [now apply N.eqb_eq | exact H2].
+Qed.
+
+Lemma opt_ext_In b e x : In x (opt_ext b e) -> b = true /\ x = e.
+Proof. unfold opt_ext. destruct b; cbn; intuition. Qed.
+
+Record server13_sound (k : conn) (ss : list N) (h : hello) (f : server_flight) : Prop := {
+  s13_version : f_version f = v13;
+  s13_suite_local : In (f_suite f) ss;
+  s13_suite_offered : In (f_suite f) (h_suites h);
+  s13_group : In (f_group f) (k_curves k) /\ In (f_group f) (h_shares h) /\
+              exists gs, h_groups h = Some gs /\ In (f_group f) gs;
+  s13_sig : In (f_sig f) (k_sigs k) /\ In (f_sig f) (h_sigs h) /\
+            sig_fits true (c_key (k_cfg k)) (f_sig f) = true /\ sig_encodable (f_sig f) = true;
+  s13_srtp : f_srtp f <> 0 ->
+             In (f_srtp f) (c_srtp (k_cfg k)) /\
+             exists ps mk, h_srtp h = Some (ps, mk) /\ In (f_srtp f) ps /\ f_mki_peer f = mk /\
+                           (f_mki_echo f = [] \/ f_mki_echo f = mk);
+  s13_srtp_none : f_srtp f = 0 -> h_srtp h = None /\ c_srtp (k_cfg k) = [];
+  s13_alpn : f_alpn f = 0;
+  s13_cid : f_cid_ext f = server_cid h (k_cfg k);
+  s13_flags : f_resumed f = false /\ f_cert f = true /\ f_ems f = true /\ c_key (k_cfg k) <> 0;
+  s13_exts : hello_wf h -> validate_response_exts h (f_sh_exts f) = true /\
+                           validate_response_exts h (f_ee_exts f) = true
+}.
+
+Lemma server13_spec k ss h f : server13 k ss h = ROk f -> server13_sound k ss h f.
+Proof.
+  unfold server13. cbv zeta. intro H.
+  rstepn H u0 E. rstepn H suite E0. rstepn H u1 E1. rstepn H u2 E2. rstepn H u3 E3.
+  rstepn H group E4. rstepn H u5 E5. rstepn H u6 E6. rstepn H sg E7. rstepn H tr E8.
+  destruct tr as [[profile echo] peer]. cbn beta iota in H.
+  destruct (sig_encodable sg) eqn:Eenc; cbn [negb] in H; [|discriminate].
+  inversion H; subst; clear H.
+  apply of_opt_ok in E0. apply first_common_some in E0. destruct E0 as [Hoff Hloc].
+  apply filter_In in Hoff. destruct Hoff as [Hoff _].
+  apply req_ok in E2. apply andb_true_iff in E2. destruct E2 as [_ E2].
+  apply req_ok in E3. apply mem_In in E3.
+  apply of_opt_ok in E4. apply first_common_some in E4. destruct E4 as [G1 G2].
+  apply req_ok in E5. apply mem_In in E5.
+  apply req_ok in E6. apply negb_true_iff, N.eqb_neq in E6.
+  apply of_opt_ok in E7. apply select_sig_some in E7. destruct E7 as [S1 S2].
+  apply inter_In in S1. destruct S1 as [S1 S3]. apply filter_In in S1. destruct S1 as [S1 _].
+  constructor; cbn [f_version f_suite f_group f_sig f_ems f_ems_ext f_srtp f_mki_echo f_mki_peer f_alpn f_cid_ext f_rrc_ext f_resumed f_cert f_cert_req f_sh_exts f_ee_exts];
+    try assumption; try reflexivity; try tauto.
+  - repeat split; try assumption. destruct (h_groups h) as [gs|]; [|discriminate]. exists gs. now split.
+  - intro Hp. apply negotiate_srtp_ok in E8.
+    destruct E8 as [[Hz _]|[_ [ps [mk [Ho [Hl [Hps [Hm He]]]]]]]]; [congruence|].
+    split; [exact Hl|]. exists ps, mk. repeat split; try assumption. destruct He as [He|[He _]]; auto.
+  - intro Hp. apply negotiate_srtp_ok in E8. destruct E8 as [[_ [Ho [Hl _]]]|[Hnz _]]; [now split | congruence].
+  - intros [W1 [W2 [W3 W4]]]. split; apply validate_response_exts_spec; intros e He; left.
+    + cbn [app] in He. destruct He as [He|[He|He]].
+      * subst. apply W1. intro Hn. rewrite Hn in E3. destruct E3.
+      * subst. apply W2. intro Hn. rewrite Hn in E5. destruct E5.
+      * apply in_app_or in He. destruct He as [He|He]; apply opt_ext_In in He; destruct He as [Hb He]; subst.
+        -- apply W3. unfold server_cid in Hb. destruct (h_cid h); [discriminate | destruct (c_cid (k_cfg k)); discriminate].
+        -- apply andb_true_iff in Hb. destruct Hb as [_ Hb]. now apply mem_In.
+    + apply opt_ext_In in He. destruct He as [Hb He]. subst. apply W4.
+      apply negotiate_srtp_ok in E8. destruct E8 as [[Hz _]|[_ [ps [mk [Ho _]]]]].
+      * subst. discriminate.
+      * rewrite Ho. discriminate.
+Qed.
+
+(* ------------------------------------------------------------------ the client's checks *)
+
+Ltac outproj := cbn [o_version o_suite o_group o_sig o_csig o_ems o_srtp o_mki_client o_mki_server o_alpn o_cid
+                     o_resumed o_server_cert o_client_cert o_cert_requested o_ch_exts o_sh_exts].
+
+Lemma client_auth_sig_spec is13 ck sk f b cs :
+  client_auth_sig is13 ck sk f = ROk (b, cs) ->
+  (b = false /\ cs = 0) \/
+  (b = true /\ f_cert_req f = true /\ c_key (k_cfg ck) <> 0 /\ In cs (k_sigs sk) /\
+   sig_fits is13 (c_key (k_cfg ck)) cs = true).
+Proof.
+  unfold client_auth_sig. destruct (f_cert_req f).
+  - destruct (c_key (k_cfg ck) =? 0) eqn:Ek.
+    + intro H. inversion H. now left.
+    + intro H. rstepn H sg E. inversion H; subst. apply of_opt_ok in E. apply select_sig_some in E.
+      apply N.eqb_neq in Ek. right. tauto.
+  - intro H. inversion H. now left.
+Qed.
+
+Record client_sound (v : N) (ck sk : conn) (cs : list N) (h : hello) (f : server_flight) (o : outcome) : Prop := {
+  cl_version : o_version o = v;
+  cl_suite : o_suite o = f_suite f /\ In (f_suite f) cs /\ s_supports (f_suite f) v = true;
+  cl_group : o_group o = f_group f;
+  cl_sig : o_sig o <> 0 -> o_sig o = f_sig f /\ In (f_sig f) (k_sigs ck);
+  cl_chain : o_server_cert o = true -> o_resumed o = false ->
+             (s_auth (f_suite f) =? g11_auth_certificate) = true \/ v = v13 ->
+             c_skip_verify (k_cfg ck) = true \/ In (c_chain_sig (k_cfg sk)) (cert_algs ck);
+  cl_csig : o_csig o <> 0 -> In (o_csig o) (k_sigs sk) /\ o_client_cert o = true /\
+                             sig_fits (v =? v13) (c_key (k_cfg ck)) (o_csig o) = true;
+  cl_srtp : o_srtp o <> 0 ->
+            o_srtp o = f_srtp f /\ In (o_srtp o) (c_srtp (k_cfg ck)) /\ o_mki_client o = f_mki_echo f /\
+            exists ps mk, h_srtp h = Some (ps, mk) /\ In (o_srtp o) ps /\ (o_mki_client o = [] \/ o_mki_client o = mk);
+  cl_srtp_none : o_srtp o = 0 -> f_srtp f = 0 \/ h_srtp h = None;
+  cl_mki_server : o_mki_server o = f_mki_peer f;
+  cl_alpn : o_alpn o = f_alpn f;
+  cl_ems : o_ems o = if v =? v13 then true else f_ems_ext f && negb (c_ems (k_cfg ck) =? g11_ems_disable);
+  cl_ems_required : (c_ems (k_cfg ck) =? g11_ems_require) = true -> o_ems o = true;
+  cl_cid : o_cid o = decide_cid h (f_cid_ext f) (f_rrc_ext f);
+  cl_exts : o_sh_exts o = f_sh_exts f /\ o_ch_exts o = h_exts h /\ validate_response_exts h (f_sh_exts f) = true;
+  cl_flags : o_resumed o = f_resumed f /\ o_server_cert o = f_cert f /\ o_cert_requested o = f_cert_req f
+}.
+
+Lemma validate_srtp_client offer f lp p m :
+  validate_srtp offer (if f_srtp f =? 0 then None else Some (f_srtp f, f_mki_echo f)) lp = ROk (p, m) ->
+  (p <> 0 -> p = f_srtp f /\ In p lp /\ m = f_mki_echo f /\
+             exists ps mk, offer = Some (ps, mk) /\ In p ps /\ (m = [] \/ m = mk)) /\
+  (p = 0 -> f_srtp f = 0 \/ offer = None).
+Proof.
+  intro H. apply validate_srtp_ok in H. destruct H as [[Hp [Ho Hm]]|[ps [mk [Ho [Hs [H1 [H2 H3]]]]]]].
+  - split; [congruence|]. intros _. now right.
+  - destruct (f_srtp f =? 0) eqn:E; [discriminate|]. inversion Hs; subst. apply N.eqb_neq in E. split.
+    + intros _. repeat split; try assumption. exists ps, mk. repeat split; assumption.
+    + congruence.
+Qed.
+
+Lemma client12_spec ck sk cs h f o :
+  client12 ck sk cs h f = ROk o -> client_sound v12 ck sk cs h f o.
+Proof.
+  unfold client12. cbv zeta. intro H.
+  rstepn H u0 E0. rstepn H tr E1. destruct tr as [profile mki]. cbn beta iota in H.
+  rstepn H u2 E2. rstepn H u3 E3.
+  apply if_ok in E0. apply validate_srtp_client in E1. destruct E1 as [P1 P2].
+  apply req_ok in E2. apply req_ok in E3.
+  apply andb_true_iff in E3. destruct E3 as [E3 S3]. apply andb_true_iff in E3. destruct E3 as [_ S2].
+  apply mem_In in S3.
+  assert (Hems : (c_ems (k_cfg ck) =? g11_ems_require) = true ->
+                 f_ems_ext f && negb (c_ems (k_cfg ck) =? g11_ems_disable) = true).
+  { intro Hr. rewrite Hr in E2. exact E2. }
+  assert (v12 =? v13 = false) as Hv by reflexivity.
+  destruct (f_resumed f) eqn:Eres.
+  - inversion H; subst; clear H. constructor; outproj; rewrite ?Hv; try tauto; try congruence; try reflexivity; try (repeat split; congruence).
+
+  - destruct (s_auth (f_suite f) =? g11_auth_certificate) eqn:Ecert.
+    + rstepn H u4 E4. rstepn H u5 E5. rstepn H u6 E6. rstepn H tr E7. destruct tr as [ccert csg].
+      cbn beta iota in H. inversion H; subst; clear H.
+      apply req_ok in E4, E5, E6. apply mem_In in E5.
+      apply client_auth_sig_spec in E7.
+      constructor; outproj; rewrite ?Hv; try tauto; try congruence; try reflexivity; try (repeat split; congruence).
+      all: try (intros _ _ _; apply orb_true_iff in E6; destruct E6 as [E6|E6]; [now left | right; now apply mem_In]).
+      all: try (intro Hc; destruct E7 as [[_ Hz]|[Hb [_ [_ [Hin Hfit]]]]]; [congruence | tauto]).
+    + inversion H; subst; clear H. constructor; outproj; rewrite ?Hv; try tauto; try congruence; try reflexivity; try (repeat split; congruence).
+      intros _ _ [Hc|Hc]; [congruence | discriminate].
+Qed.
+
+Lemma client13_spec ck sk cs h f o :
+  f_alpn f = 0 -> f_resumed f = false -> f_cert f = true ->
+  client13 ck sk cs h f = ROk o ->
+  client_sound v13 ck sk cs h f o /\ In (f_group f) (h_shares h) /\
+  validate_response_exts h (f_ee_exts f) = true /\ o_sig o = f_sig f /\ In (f_sig f) (k_sigs ck) /\
+  (o_client_cert o = true -> sig_encodable (o_csig o) = true).
+Proof.
+  intros Fa Fr Fc. unfold client13. cbv zeta. intro H.
+  rstepn H u0 E0. rstepn H u1 E1. rstepn H u2 E2. rstepn H u3 E3. rstepn H tr E4.
+  destruct tr as [profile mki]. cbn beta iota in H.
+  rstepn H u5 E5. rstepn H u6 E6. rstepn H tr E7. destruct tr as [ccert csg]. cbn beta iota in H.
+  destruct (ccert && negb (sig_encodable csg)) eqn:Eenc; [discriminate|].
+  inversion H; subst; clear H.
+  apply if_ok in E0. apply if_ok in E3. apply validate_srtp_client in E4. destruct E4 as [P1 P2].
+  apply req_ok in E1, E2, E5, E6. apply mem_In in E2, E5.
+  apply andb_true_iff in E1. destruct E1 as [E1 S3]. apply andb_true_iff in E1. destruct E1 as [_ S2].
+  apply mem_In in S3. apply client_auth_sig_spec in E7.
+  assert (v13 =? v13 = true) as Hv by reflexivity.
+  repeat split; outproj; rewrite ?Hv; try tauto; try congruence; try reflexivity.
+  - intros _ _ _. apply orb_true_iff in E6. destruct E6 as [E6|E6]; [now left | right; now apply mem_In].
+  - intro Hc. subst. cbn in Eenc. now apply negb_false_iff in Eenc.
+Qed.
+
+Lemma server_finish_ok is13 sk ck o o' : server_finish is13 sk ck o = ROk o' -> o' = o.
+Proof.
+  unfold server_finish. cbv zeta. destruct (o_cert_requested o).
+  - intro H. rstepn H u0 E0. rstepn H u1 E1. now inversion H.
+  - intro H. now inversion H.
+Qed.
+
+(* client certificates: when the server verifies them, the chain's signature scheme is one the server allows *)
+Lemma server_finish_chain is13 sk ck o o' :
+  server_finish is13 sk ck o = ROk o' -> o_cert_requested o = true -> o_client_cert o = true ->
+  (c_client_auth (k_cfg sk) <? g11_auth_verify_if_given) = false ->
+  In (c_chain_sig (k_cfg ck)) (cert_algs sk).
+Proof.
+  unfold server_finish. cbv zeta. intros H Hr Hc Hv. rewrite Hr in H.
+  rstepn H u0 E0. apply req_ok in E0. rewrite Hc, Hv in E0. cbn in E0. now apply mem_In.
+Qed.
+
+(* ------------------------------------------------------------------ C11: every negotiated value lies within both policies *)
+
+Definition conn_wf (k : conn) : Prop :=
+  (k_min k = v12 \/ k_min k = v13) /\ (k_max k = v12 \/ k_max k = v13) /\ k_min k <= k_max k.
+
+Definition requires_ems (c : cfg) : bool := c_ems c =? g11_ems_require.
+
+Record in_policy_conn (ck sk : conn) (o : outcome) : Prop := {
+  ip_version : in_range (k_min ck) (k_max ck) (o_version o) = true /\
+               in_range (k_min sk) (k_max sk) (o_version o) = true;
+  ip_suite : In (o_suite o) (k_suites ck) /\ In (o_suite o) (k_suites sk) /\
+             fits_key (c_key (k_cfg sk)) (o_suite o) = true /\ s_supports (o_suite o) (o_version o) = true;
+  ip_group : o_group o <> 0 -> In (o_group o) (k_curves ck) /\ In (o_group o) (k_curves sk);
+  ip_sig : o_sig o <> 0 -> In (o_sig o) (k_sigs ck) /\ In (o_sig o) (k_sigs sk) /\
+                           sig_fits (o_version o =? v13) (c_key (k_cfg sk)) (o_sig o) = true;
+  ip_csig : o_csig o <> 0 -> In (o_csig o) (k_sigs sk) /\
+                             sig_fits (o_version o =? v13) (c_key (k_cfg ck)) (o_csig o) = true;
+  ip_chain : o_server_cert o = true -> o_resumed o = false ->
+             c_skip_verify (k_cfg ck) = true \/ In (c_chain_sig (k_cfg sk)) (cert_algs ck);
+  ip_srtp : o_srtp o <> 0 -> In (o_srtp o) (c_srtp (k_cfg ck)) /\ In (o_srtp o) (c_srtp (k_cfg sk));
+  ip_alpn : o_alpn o <> 0 -> In (o_alpn o) (c_alpn (k_cfg ck)) /\ In (o_alpn o) (c_alpn (k_cfg sk));
+  ip_ems : requires_ems (k_cfg ck) = true \/ requires_ems (k_cfg sk) = true -> o_ems o = true;
+  ip_exts : forall e, In e (o_sh_exts o) -> In e (o_ch_exts o)
+}.
+
+Lemma lift_ok {A} who (r : res A) (k : A -> result) o :
+  lift who r k = Ok o -> exists a, r = ROk a /\ k a = Ok o.
+Proof. destruct r as [a| |]; cbn; try discriminate. intro H. now exists a. Qed.
+
+Lemma filter_for_version_In v l s : In s (filter_for_version v l) <-> In s l /\ s_supports s v = true.
+Proof. unfold filter_for_version. rewrite filter_In. reflexivity. Qed.
+
+Lemma filter_for_key_In key l s : In s (filter_for_key key l) <-> In s l /\ fits_key key s = true.
+Proof. unfold filter_for_key. rewrite filter_In. reflexivity. Qed.
+
+Lemma hello12_suites k b : h_suites (client_hello12 k b) = k_suites k. Proof. reflexivity. Qed.
+Lemma hello13_suites k : h_suites (client_hello13 k) = k_suites k. Proof. reflexivity. Qed.
+Lemma hello12_scsv k b : h_scsv (client_hello12 k b) = false. Proof. reflexivity. Qed.
+Lemma hello13_scsv k : h_scsv (client_hello13 k) = false. Proof. reflexivity. Qed.
+
+Lemma ecc_exists l s : In s l -> s_ecc s = true -> existsb s_ecc l = true.
+Proof. intros H1 H2. apply existsb_exists. now exists s. Qed.
+
+(* the group a pion client can be answered with comes from its own curve list *)
+Lemma hello_groups_client ck h g gs :
+  (h = client_hello13 ck \/ exists b, h = client_hello12 ck b) ->
+  h_groups h = Some gs -> In g gs -> In g (k_curves ck).
+Proof.
+  intros [Hh|[b Hh]] Hg Hin; subst h; cbn in Hg; destruct (existsb s_ecc (k_suites ck)); try discriminate;
+    inversion Hg; subst; [exact Hin | now apply curves12_In in Hin].
+Qed.
+
+Lemma hello_fields ck h :
+  (h = client_hello13 ck \/ exists b, h = client_hello12 ck b) ->
+  h_suites h = k_suites ck /\ h_scsv h = false /\ h_alpn h = c_alpn (k_cfg ck) /\
+  h_sigs h = k_sigs ck /\ h_ems h = ems_requested (c_ems (k_cfg ck)) /\
+  (forall ps mk, h_srtp h = Some (ps, mk) -> ps = c_srtp (k_cfg ck)) /\
+  (existsb s_ecc (k_suites ck) = true -> h_groups h <> None).
+Proof.
+  intros [Hh|[b Hh]]; subst h; cbn; repeat split; try reflexivity.
+  - intros ps mk. destruct (nonempty (c_srtp (k_cfg ck))); [|discriminate]. intro H. now inversion H.
+  - intro He. rewrite He. discriminate.
+  - intros ps mk. destruct (nonempty (c_srtp (k_cfg ck))); [|discriminate]. intro H. now inversion H.
+  - intro He. rewrite He. discriminate.
+Qed.
+
+Lemma exts_subset h l : h_scsv h = false -> validate_response_exts h l = true -> forall e, In e l -> In e (h_exts h).
+Proof.
+  intros Hs Hv e He. apply (proj1 (validate_response_exts_spec h l) Hv) in He.
+  destruct He as [He|[_ He]]; [exact He | congruence].
+Qed.
+
+
+Definition client_tail13 (ck sk : conn) (h : hello) (f : server_flight) : result :=
+  lift Client (of_opt (select_version [v13] (k_min ck) (k_max ck)) g11_alert_protocol_version) (fun _ =>
+  let csuites := filter_for_version v13 (k_suites ck) in
+  if negb (nonempty csuites) then Silent Client else
+  lift Client (client13 ck sk csuites h f) (fun o =>
+  lift Server (server_finish true sk ck o) Ok)).
+
+Definition client_tail12 (ck sk : conn) (h : hello) (f : server_flight) : result :=
+  lift Client (of_opt (select_version [v12] (k_min ck) (k_max ck)) g11_alert_protocol_version) (fun _ =>
+  let csuites := filter_for_version v12 (k_suites ck) in
+  if negb (nonempty csuites) then Silent Client else
+  lift Client (client12 ck sk csuites h f) (fun o =>
+  lift Server (server_finish false sk ck o) Ok)).
+
+Lemma tail13_policy ck sk h f o ss :
+  (h = client_hello13 ck \/ exists b, h = client_hello12 ck b) ->
+  in_range (k_min sk) (k_max sk) v13 = true ->
+  (forall s, In s ss -> In s (k_suites sk) /\ fits_key (c_key (k_cfg sk)) s = true) ->
+  server13_sound sk ss h f -> client_tail13 ck sk h f = Ok o -> in_policy_conn ck sk o.
+Proof.
+  intros Hh Hsv Hss Hf H. unfold client_tail13 in H. cbv zeta in H.
+  destruct (hello_fields ck h Hh) as [F1 [F2 [F3 [F4 [F5 [F6 F7]]]]]].
+  destruct Hf as [S1 S2 S3 S4 S5 S6 S7 S8 S9 S10 S11].
+  apply lift_ok in H. destruct H as [cv [Hcv H]].
+  destruct (nonempty (filter_for_version v13 (k_suites ck))); cbn [negb] in H; [|discriminate].
+  apply lift_ok in H. destruct H as [o1 [Ho1 H]].
+  apply lift_ok in H. destruct H as [o2 [Ho2 H]]. inversion H; subst o2; clear H.
+  apply server_finish_ok in Ho2. subst o1.
+  destruct S10 as [R1 [R2 [R3 R4]]].
+  apply (client13_spec ck sk _ h f o S8 R1 R2) in Ho1.
+  destruct Ho1 as [C [Cg [Cee [Csig [Csigin Cenc]]]]]. destruct C.
+  apply of_opt_ok in Hcv. apply select_version_some in Hcv. destruct Hcv as [Hin Hcr].
+  destruct Hin as [Hin|[]]. subst cv.
+  destruct cl_suite0 as [Q1 [Q2 Q3]]. apply filter_for_version_In in Q2. destruct Q2 as [Q2 _].
+  destruct (Hss _ S2) as [S2a S2k].
+  destruct S4 as [G1 [G2 [gs [G3 G4]]]]. destruct S5 as [T1 [T2 [T3 T4]]].
+  constructor; rewrite ?cl_version0, ?Q1, ?cl_group0, ?Csig, ?cl_alpn0.
+  - now split.
+  - repeat split; assumption.
+  - intros _. split; [exact (hello_groups_client ck h _ gs Hh G3 G4) | exact G1].
+  - intros _. repeat split; assumption.
+  - intro Hn. destruct (cl_csig0 Hn) as [X1 [_ X3]]. now split.
+  - intros Hc Hr. apply cl_chain0; [exact Hc | exact Hr | now right].
+  - intro Hn. destruct (cl_srtp0 Hn) as [Y1 [Y2 _]]. split; [exact Y2|].
+    rewrite Y1 in *. now destruct (S6 Hn) as [Z _].
+  - rewrite S8. congruence.
+  - intros _. rewrite cl_ems0. reflexivity.
+  - destruct cl_exts0 as [X1 [X2 X3]]. rewrite X1, X2. now apply exts_subset.
+Qed.
+
+Lemma tail12_policy ck sk h f o ss :
+  (h = client_hello13 ck \/ exists b, h = client_hello12 ck b) ->
+  in_range (k_min sk) (k_max sk) v12 = true ->
+  (forall s, In s ss -> In s (k_suites sk) /\ fits_key (c_key (k_cfg sk)) s = true) ->
+  server12_sound sk ss h f -> client_tail12 ck sk h f = Ok o -> in_policy_conn ck sk o.
+Proof.
+  intros Hh Hsv Hss Hf H. unfold client_tail12 in H. cbv zeta in H.
+  destruct (hello_fields ck h Hh) as [F1 [F2 [F3 [F4 [F5 [F6 F7]]]]]].
+  destruct Hf as [S1 S2 S3 S4 S5 S5b S6 S7 S7b S7c S8 S9 S9b S10 S11 S12].
+  apply lift_ok in H. destruct H as [cv [Hcv H]].
+  destruct (nonempty (filter_for_version v12 (k_suites ck))); cbn [negb] in H; [|discriminate].
+  apply lift_ok in H. destruct H as [o1 [Ho1 H]].
+  apply lift_ok in H. destruct H as [o2 [Ho2 H]]. inversion H; subst o2; clear H.
+  apply server_finish_ok in Ho2. subst o1.
+  apply client12_spec in Ho1. destruct Ho1.
+  apply of_opt_ok in Hcv. apply select_version_some in Hcv. destruct Hcv as [Hin Hcr].
+  destruct Hin as [Hin|[]]. subst cv.
+  destruct cl_suite0 as [Q1 [Q2 Q3]]. apply filter_for_version_In in Q2. destruct Q2 as [Q2 _].
+  destruct (Hss _ S2) as [S2a S2k].
+  destruct cl_flags0 as [K1 [K2 K3]].
+  constructor; rewrite ?cl_version0, ?Q1, ?cl_group0, ?cl_alpn0.
+  - now split.
+  - repeat split; assumption.
+  - intro Hn. destruct (S5 Hn) as [G1 [G2 G3]]. split; [|exact G1].
+    pose proof (suite_needs_group_ecc _ (S5b Hn)) as Hecc.
+    pose proof (F7 (ecc_exists _ _ Q2 Hecc)) as Hne.
+    destruct (h_groups h) as [gs|] eqn:Eg; [|congruence].
+    exact (hello_groups_client ck h _ gs Hh Eg (G3 gs eq_refl)).
+  - intro Hn. destruct (cl_sig0 Hn) as [X1 X2]. rewrite X1 in *. destruct (S6 Hn) as [Y1 Y2].
+    repeat split; assumption.
+  - intro Hn. destruct (cl_csig0 Hn) as [X1 [_ X3]]. now split.
+  - intros Hc Hr. rewrite K2 in Hc. rewrite K1 in Hr. apply cl_chain0; [now rewrite K2 | now rewrite K1 |].
+    left. now destruct (S7 Hc) as [_ [Hauth _]].
+  - intro Hn. destruct (cl_srtp0 Hn) as [Y1 [Y2 _]]. split; [exact Y2|].
+    rewrite Y1 in *. now destruct (S7b Hn) as [Z _].
+  - intro Hn. destruct (S8 Hn) as [Z1 Z2]. rewrite F3 in Z2. now split.
+  - intros [He|He]; unfold requires_ems in He; [now apply cl_ems_required0|].
+    rewrite cl_ems0. cbn. pose proof (S9 He) as Hx. rewrite Hx. cbn.
+    destruct (S9b Hx) as [Hh1 _]. rewrite F5 in Hh1. now rewrite (ems_requested_not_disable _ Hh1).
+  - destruct cl_exts0 as [X1 [X2 X3]]. rewrite X1, X2. now apply exts_subset.
+Qed.
+
+(* the version the server works in, as a function of the hello (prepareHandshakeStart / pickVersionFromClientHello) *)
+Definition server_version (sk : conn) (h : hello) : res N :=
+  match stack_of sk with
+  | Only12 => ROk v12
+  | Only13 => ROk v13
+  | Dual => of_opt (select_version (match h_versions h with [] => [h_legacy h] | l => l end) (k_min sk) (k_max sk))
+                   g11_alert_protocol_version
+  end.
+
+Lemma negotiate_conn_inv ck sk seeded o :
+  negotiate_conn ck sk seeded = Ok o ->
+  exists h v ss,
+    ((h = client_hello13 ck /\ stack_of ck <> Only12) \/ (exists b, h = client_hello12 ck b) /\ stack_of ck = Only12) /\
+    server_version sk h = ROk v /\
+    (forall s, In s ss -> In s (k_suites sk) /\ fits_key (c_key (k_cfg sk)) s = true) /\
+    ((v = v13 /\ exists f, server13 sk ss h = ROk f /\ client_tail13 ck sk h f = Ok o) \/
+     (v <> v13 /\ exists f, server12 sk ss h seeded = ROk f /\ client_tail12 ck sk h f = Ok o)).
+Proof.
+  unfold negotiate_conn. cbv zeta.
+  set (h := match stack_of ck with
+            | Only12 => client_hello12 ck _
+            | _ => client_hello13 ck end).
+  assert (Hh : (h = client_hello13 ck /\ stack_of ck <> Only12) \/ (exists b, h = client_hello12 ck b) /\ stack_of ck = Only12).
+  { subst h. destruct (stack_of ck); [right; split; eauto | left; split; [reflexivity | discriminate] ..]. }
+  clearbody h. intro H. exists h.
+  apply lift_ok in H. destruct H as [v [Hv H]]. exists v.
+  set (ss := filter_for_version v (filter_for_key (c_key (k_cfg sk)) (k_suites sk))) in *.
+  assert (Hss : forall s, In s ss -> In s (k_suites sk) /\ fits_key (c_key (k_cfg sk)) s = true).
+  { intros s Hs. subst ss. apply filter_for_version_In in Hs. destruct Hs as [Hs _].
+    now apply filter_for_key_In in Hs. }
+  clearbody ss. exists ss.
+  destruct (nonempty ss); cbn [negb] in H; [|discriminate].
+  split; [exact Hh|]. split; [exact Hv|]. split; [exact Hss|].
+  destruct (v =? v13) eqn:Ev.
+  - left. apply N.eqb_eq in Ev. split; [exact Ev|].
+    apply lift_ok in H. destruct H as [f [Hf H]]. exists f. split; [exact Hf|].
+    destruct (stack_of ck); [discriminate | exact H | exact H].
+  - right. apply N.eqb_neq in Ev. split; [exact Ev|].
+    apply lift_ok in H. destruct H as [f [Hf H]]. exists f. split; [exact Hf|].
+    destruct (stack_of ck); [exact H | discriminate | exact H].
+Qed.
+
+Lemma server_version_range sk h v :
+  conn_wf sk -> server_version sk h = ROk v -> in_range (k_min sk) (k_max sk) v = true /\ (v = v12 \/ v = v13).
+Proof.
+  intros [Ws1 [Ws2 Ws3]] Hv. unfold server_version, stack_of in Hv. unfold in_range.
+  destruct (k_max sk =? v12) eqn:E1.
+  - inversion Hv; subst v. apply N.eqb_eq in E1. split; [|now left].
+    destruct Ws1 as [W|W]; rewrite W, E1 in *; cbn; try reflexivity. unfold v12, v13 in Ws3. lia.
+  - destruct (k_min sk =? v13) eqn:E2.
+    + inversion Hv; subst v. apply N.eqb_eq in E2. apply N.eqb_neq in E1. split; [|now right].
+      destruct Ws2 as [W|W]; [congruence|]. rewrite W, E2. reflexivity.
+    + apply of_opt_ok in Hv. apply select_version_some in Hv. destruct Hv as [_ Hr]. split; [exact Hr|].
+      unfold in_range in Hr. apply N.eqb_neq in E1, E2. unfold v12, v13 in *. lia.
+Qed.
+
+Lemma hello_kind_weaken ck h :
+  ((h = client_hello13 ck /\ stack_of ck <> Only12) \/ (exists b, h = client_hello12 ck b) /\ stack_of ck = Only12) ->
+  h = client_hello13 ck \/ exists b, h = client_hello12 ck b.
+Proof. intros [[H _]|[H _]]; auto. Qed.
+
+Theorem in_policy_conn_holds ck sk seeded o :
+  conn_wf sk -> negotiate_conn ck sk seeded = Ok o -> in_policy_conn ck sk o.
+Proof.
+  intros Ws H. apply negotiate_conn_inv in H.
+  destruct H as [h [v [ss [Hh [Hv [Hss Hcase]]]]]].
+  apply hello_kind_weaken in Hh.
+  destruct (server_version_range _ _ _ Ws Hv) as [Hsv Hv2].
+  destruct Hcase as [[Ev [f [Hf H]]]|[Ev [f [Hf H]]]].
+  - subst v. apply server13_spec in Hf. exact (tail13_policy ck sk h f o ss Hh Hsv Hss Hf H).
+  - destruct Hv2 as [Hv2|Hv2]; [subst v | congruence].
+    apply server12_spec in Hf. exact (tail12_policy ck sk h f o ss Hh Hsv Hss Hf H).
+Qed.
+
+(* the version of an established association is the one the server chose *)
+Lemma tail_version ck sk h f o :
+  (client_tail13 ck sk h f = Ok o -> f_alpn f = 0 -> f_resumed f = false -> f_cert f = true -> o_version o = v13) /\
+  (client_tail12 ck sk h f = Ok o -> o_version o = v12).
+Proof.
+  split.
+  - intros H Fa Fr Fc. unfold client_tail13 in H. cbv zeta in H.
+    apply lift_ok in H. destruct H as [cv [_ H]].
+    destruct (nonempty (filter_for_version v13 (k_suites ck))); cbn [negb] in H; [|discriminate].
+    apply lift_ok in H. destruct H as [o1 [Ho1 H]].
+    apply lift_ok in H. destruct H as [o2 [Ho2 H]]. inversion H; subst o2; clear H.
+    apply server_finish_ok in Ho2. subst o1.
+    apply (client13_spec ck sk _ h f o Fa Fr Fc) in Ho1. destruct Ho1 as [C _]. now destruct C.
+  - intro H. unfold client_tail12 in H. cbv zeta in H.
+    apply lift_ok in H. destruct H as [cv [_ H]].
+    destruct (nonempty (filter_for_version v12 (k_suites ck))); cbn [negb] in H; [|discriminate].
+    apply lift_ok in H. destruct H as [o1 [Ho1 H]].
+    apply lift_ok in H. destruct H as [o2 [Ho2 H]]. inversion H; subst o2; clear H.
+    apply server_finish_ok in Ho2. subst o1.
+    apply client12_spec in Ho1. now destruct Ho1.
+Qed.
+
+(* C11 "and is the highest both allow": between two pion endpoints the negotiated version is the greatest
+   version lying in both (effective) ranges.  The premise of [highest_version] - the peer's list is a
+   SupportedVersionsRange list, newest first - is discharged here by the shape of the generated hello. *)
+Theorem negotiated_version_is_highest ck sk seeded o :
+  conn_wf ck -> conn_wf sk -> negotiate_conn ck sk seeded = Ok o ->
+  forall w, (w = v12 \/ w = v13) ->
+    in_range (k_min ck) (k_max ck) w = true -> in_range (k_min sk) (k_max sk) w = true -> w <= o_version o.
+Proof.
+  intros Wc Ws H w Hw Hc Hs. apply negotiate_conn_inv in H.
+  destruct H as [h [v [ss [Hh [Hv [Hss Hcase]]]]]].
+  assert (Hov : o_version o = v).
+  { destruct Hcase as [[Ev [f [Hf H]]]|[Ev [f [Hf H]]]].
+    - subst v. apply server13_spec in Hf. destruct Hf. destruct s13_flags0 as [R1 [R2 _]].
+      now apply (proj1 (tail_version ck sk h f o)).
+    - destruct (server_version_range _ _ _ Ws Hv) as [_ [Hv2|Hv2]]; [subst v | congruence].
+      now apply (proj2 (tail_version ck sk h f o)). }
+  rewrite Hov. clear Hcase Hov.
+  unfold server_version in Hv. destruct Wc as [Wc1 [Wc2 Wc3]]. destruct Ws as [Ws1 [Ws2 Ws3]].
+  unfold stack_of in *. unfold in_range in *.
+  destruct (k_max sk =? v12) eqn:E1.
+  - inversion Hv; subst v. apply N.eqb_eq in E1. unfold v12, v13 in *. lia.
+  - destruct (k_min sk =? v13) eqn:E2.
+    + inversion Hv; subst v. unfold v12, v13 in *. lia.
+    + apply of_opt_ok in Hv.
+      destruct Hh as [[Hh Hst]|[[b Hh] Hst]]; subst h.
+      * (* 1.3-style hello: supported_versions of the client's range *)
+        change (h_versions (client_hello13 ck)) with (supported_versions (k_min ck) (k_max ck)) in Hv.
+        destruct (supported_versions (k_min ck) (k_max ck)) as [|a l] eqn:Esv.
+        -- (* cannot be empty: w itself is in it *)
+           assert (Hin : In w (supported_versions (k_min ck) (k_max ck))).
+           { apply supported_versions_spec. split; [|unfold in_range; exact Hc].
+             unfold g11_version_order, v12, v13 in *. cbn. destruct Hw; subst; auto. }
+           rewrite Esv in Hin. destruct Hin.
+        -- rewrite <- Esv in Hv.
+           apply (highest_version (k_min ck) (k_max ck) (k_min sk) (k_max sk) v Hv w); try assumption.
+           unfold g11_version_order, v12, v13 in *. cbn. destruct Hw; subst; auto.
+      * (* 1.2 hello: the client's range ends at 1.2 *)
+        change (h_versions (client_hello12 ck b)) with (@nil N) in Hv. cbv iota in Hv.
+        apply select_version_some in Hv. destruct Hv as [[Hv|[]] _]. change (h_legacy (client_hello12 ck b)) with v12 in Hv. subst v.
+        destruct (k_max ck =? v12) eqn:E3; [|destruct (k_min ck =? v13); discriminate].
+        apply N.eqb_eq in E3. unfold v12, v13 in *. lia.
+Qed.
+
+(* ------------------------------------------------------------------ from the option sets to the connection values *)
+
+Definition version_allowed (c : cfg) (v : N) : Prop :=
+  norm_version (c_min c) <= v /\ v <= norm_version (c_max c).
+
+Definition suite_enabled (c : cfg) (s : N) : Prop :=
+  match c_suites c with
+  | Some l => In s l
+  | None => In s (g11_default_suites13 ++ g11_default_suites12)
+  end.
+
+Definition sig_allowed (c : cfg) (s : N) : Prop :=
+  match c_sigs c with [] => In s g11_default_sigs | l => In s l end.
+
+Lemma last_In (l : list N) d : l <> [] -> In (last l d) l.
+Proof.
+  induction l as [|a l IH]; [congruence|]. intros _. destruct l as [|b l]; [now left|].
+  right. apply IH. discriminate.
+Qed.
+
+Lemma last_le_head (a : N) (l : list N) :
+  StronglySorted (fun x y => y <= x) (a :: l) -> last (a :: l) a <= a.
+Proof.
+  intro H. inversion H as [|? ? Hs Hf]; subst. rewrite Forall_forall in Hf.
+  destruct l as [|b l]; [cbn; lia|].
+  assert (Hin : In (last (a :: b :: l) a) (b :: l)).
+  { change (last (a :: b :: l) a) with (last (b :: l) a). apply last_In. discriminate. }
+  now apply Hf.
+Qed.
+
+Lemma suite_versions_sub ss vs v : In v (suite_versions ss vs) -> In v vs.
+Proof.
+  unfold suite_versions. destruct ss as [l|]; [|auto]. destruct (forallb known_suite l); [|auto].
+  intro H. now apply filter_In in H.
+Qed.
+
+Lemma suite_versions_sorted ss vs :
+  StronglySorted (fun x y => y <= x) vs -> StronglySorted (fun x y => y <= x) (suite_versions ss vs).
+Proof.
+  intro H. unfold suite_versions. destruct ss as [l|]; [|exact H]. destruct (forallb known_suite l); [|exact H].
+  now apply filter_sorted.
+Qed.
+
+Lemma effective_range_spec c mn mx :
+  effective_range c = Some (mn, mx) ->
+  (mn = v12 \/ mn = v13) /\ (mx = v12 \/ mx = v13) /\ mn <= mx /\
+  version_allowed c mn /\ version_allowed c mx.
+Proof.
+  unfold effective_range. cbv zeta.
+  set (nmn := norm_version (c_min c)). set (nmx := norm_version (c_max c)).
+  set (range := supported_versions nmn nmx).
+  set (cv := suite_versions (c_suites c) range).
+  set (versions := if nonempty cv then cv else range).
+  set (kv := curve_versions (c_curves c) range).
+  destruct (nonempty (c_curves c) && negb (nonempty kv)); [discriminate|].
+  destruct (inter versions kv) as [|hi t] eqn:Ei; [discriminate|].
+  intro H. inversion H; subst mn mx; clear H.
+  assert (Hsorted_range : StronglySorted (fun x y => y <= x) range)
+    by (apply filter_sorted, version_order_sorted).
+  assert (Hsorted : StronglySorted (fun x y => y <= x) (hi :: t)).
+  { rewrite <- Ei. unfold inter. apply filter_sorted. subst versions.
+    destruct (nonempty cv); [now apply suite_versions_sorted | exact Hsorted_range]. }
+  assert (Hsub : forall v, In v (hi :: t) -> In v range).
+  { intros v Hv. rewrite <- Ei in Hv. apply inter_In in Hv. destruct Hv as [Hv _]. subst versions.
+    destruct (nonempty cv); [now apply suite_versions_sub in Hv | exact Hv]. }
+  assert (Hval : forall v, In v range -> (v = v12 \/ v = v13) /\ version_allowed c v).
+  { intros v Hv. apply supported_versions_spec in Hv. destruct Hv as [Ho Hr].
+    apply version_order_values in Ho. split; [tauto|]. unfold version_allowed, in_range in *. fold nmn nmx. lia. }
+  assert (Hlast : In (last (hi :: t) hi) (hi :: t)) by (apply last_In; discriminate).
+  destruct (Hval _ (Hsub _ Hlast)) as [V1 V2].
+  destruct (Hval _ (Hsub _ (or_introl eq_refl))) as [V3 V4].
+  split; [tauto|]. split; [tauto|]. split; [now apply last_le_head|]. split; assumption.
+Qed.
+
+Lemma default_suites_for_In vs s :
+  In s (default_suites_for vs) -> In s (g11_default_suites13 ++ g11_default_suites12).
+Proof.
+  unfold default_suites_for. intro H. apply in_flat_map in H. destruct H as [v [_ H]].
+  apply in_or_app. destruct (v =? v13); [now left|]. destruct (v =? v12); [now right | destruct H].
+Qed.
+
+Lemma parse_suites_spec c mn mx l :
+  parse_suites c mn mx = Some l ->
+  forall s, In s l -> suite_enabled c s /\ exists v, in_range mn mx v = true /\ s_supports s v = true.
+Proof.
+  unfold parse_suites. cbv zeta.
+  destruct (match c_suites c with
+            | Some l0 => if forallb known_suite l0 then Some l0 else None
+            | None => Some (default_suites_for (supported_versions mn mx)) end) as [b|] eqn:Eb; [|discriminate].
+  match goal with |- (if ?a then _ else _) = _ -> _ => destruct a end; [discriminate|].
+  match goal with |- (if ?a then _ else _) = _ -> _ => destruct a end; [discriminate|].
+  match goal with |- (if ?a then _ else _) = _ -> _ => destruct a end; [|discriminate].
+  intro H. inversion H; subst l; clear H. intros s Hs.
+  apply filter_In in Hs. destruct Hs as [Hs _]. apply filter_In in Hs. destruct Hs as [Hs Hv].
+  split.
+  - unfold suite_enabled. destruct (c_suites c) as [l0|].
+    + destruct (forallb known_suite l0); inversion Eb; now subst.
+    + inversion Eb; subst. now apply default_suites_for_In in Hs.
+  - apply existsb_exists in Hv. destruct Hv as [v [Hv1 Hv2]]. exists v. split; [|exact Hv2].
+    now apply supported_versions_spec in Hv1.
+Qed.
+
+Lemma parse_sigs_spec l out : parse_sigs l = Some out ->
+  forall s, In s out -> match l with [] => In s g11_default_sigs | _ => In s l end.
+Proof.
+  unfold parse_sigs. destruct l as [|a l].
+  - intro H. inversion H; subst. auto.
+  - remember (a :: l) as l0 eqn:El0. destruct (forallb sig_known l0); [|discriminate].
+    destruct (nonempty (filter (fun s => negb (sig_insecure s)) l0)); [|discriminate].
+    intro H. injection H as H1. intros s Hs. rewrite <- H1 in Hs. apply filter_In in Hs. tauto.
+Qed.
+
+Record built_from (c : cfg) (k : conn) : Prop := {
+  bf_cfg : k_cfg k = c;
+  bf_wf : conn_wf k;
+  bf_range : version_allowed c (k_min k) /\ version_allowed c (k_max k);
+  bf_suites : forall s, In s (k_suites k) -> suite_enabled c s;
+  bf_curves : k_curves k = eff_curves c;
+  bf_sigs : forall s, In s (k_sigs k) -> sig_allowed c s
+}.
+
+Lemma build_spec b c k : build b c = Some k -> built_from c k.
+Proof.
+  unfold build.
+  destruct (b && c_psk c && negb (c_hint c)); [discriminate|].
+  destruct (c_hint c && negb (c_psk c)); [discriminate|].
+  destruct (effective_range c) as [[mn mx]|] eqn:Er; [|discriminate].
+  destruct (parse_suites c mn mx) as [ss|] eqn:Es; [|discriminate].
+  destruct (parse_sigs (c_sigs c)) as [sg|] eqn:Eg; [|discriminate].
+  assert (Hk : forall cs, Some (mkConn c mn mx ss sg cs (eff_curves c)) = Some k -> built_from c k).
+  2: { destruct (c_csigs c) as [|a0 l0]; [apply Hk|]. destruct (parse_sigs (a0 :: l0)); [apply Hk | discriminate]. }
+  intros cs H. inversion H; subst k; clear H.
+  apply effective_range_spec in Er. destruct Er as [R1 [R2 [R3 [R4 R5]]]].
+  constructor; cbn; try reflexivity.
+  - now repeat split.
+  - now split.
+  - intros s Hs. now destruct (parse_suites_spec _ _ _ _ Es s Hs).
+  - intros s Hs. unfold sig_allowed. pose proof (parse_sigs_spec _ _ Eg s Hs) as Hp.
+    destruct (c_sigs c); exact Hp.
+Qed.
+
+(* ------------------------------------------------------------------ C11 in_policy, stated on the two option sets *)
+
+Record in_policy (c s : cfg) (o : outcome) : Prop := {
+  pol_version : version_allowed c (o_version o) /\ version_allowed s (o_version o);
+  pol_suite : suite_enabled c (o_suite o) /\ suite_enabled s (o_suite o) /\
+              fits_key (c_key s) (o_suite o) = true /\ s_supports (o_suite o) (o_version o) = true;
+  pol_group : o_group o <> 0 -> In (o_group o) (eff_curves c) /\ In (o_group o) (eff_curves s);
+  pol_sig : o_sig o <> 0 -> sig_allowed c (o_sig o) /\ sig_allowed s (o_sig o) /\
+                            sig_fits (o_version o =? v13) (c_key s) (o_sig o) = true;
+  pol_csig : o_csig o <> 0 -> sig_allowed s (o_csig o);
+  pol_srtp : o_srtp o <> 0 -> In (o_srtp o) (c_srtp c) /\ In (o_srtp o) (c_srtp s);
+  pol_alpn : o_alpn o <> 0 -> In (o_alpn o) (c_alpn c) /\ In (o_alpn o) (c_alpn s);
+  pol_ems : requires_ems c = true \/ requires_ems s = true -> o_ems o = true;
+  pol_exts : forall e, In e (o_sh_exts o) -> In e (o_ch_exts o)
+}.
+
+Lemma version_allowed_range c k v :
+  built_from c k -> in_range (k_min k) (k_max k) v = true -> version_allowed c v.
+Proof.
+  intros [_ _ [[R1 _] [_ R2]] _ _ _] H. unfold in_range in H. unfold version_allowed in *. lia.
+Qed.
+
+Theorem in_policy_holds c s seeded o : negotiate c s seeded = Some (Ok o) -> in_policy c s o.
+Proof.
+  unfold negotiate. destruct (build true c) as [ck|] eqn:Ec; [|discriminate].
+  destruct (build false s) as [sk|] eqn:Es; [|discriminate].
+  intro H. inversion H as [H1]; clear H.
+  apply build_spec in Ec, Es.
+  pose proof (in_policy_conn_holds ck sk seeded o (bf_wf _ _ Es) H1) as P.
+  destruct P as [P1 P2 P3 P4 P5 P6 P7 P8 P9 P10].
+  pose proof (bf_cfg _ _ Ec) as Kc. pose proof (bf_cfg _ _ Es) as Ks. rewrite Kc, Ks in *.
+  constructor.
+  - destruct P1 as [A B]. split; [exact (version_allowed_range _ _ _ Ec A) | exact (version_allowed_range _ _ _ Es B)].
+  - destruct P2 as [A [B [C D]]]. repeat split; try assumption; [exact (bf_suites _ _ Ec _ A) | exact (bf_suites _ _ Es _ B)].
+  - intro Hn. destruct (P3 Hn) as [A B]. rewrite (bf_curves _ _ Ec) in A. rewrite (bf_curves _ _ Es) in B. now split.
+  - intro Hn. destruct (P4 Hn) as [A [B C]]. repeat split; try assumption;
+      [exact (bf_sigs _ _ Ec _ A) | exact (bf_sigs _ _ Es _ B)].
+  - intro Hn. destruct (P5 Hn) as [A _]. exact (bf_sigs _ _ Es _ A).
+  - exact P7.
+  - exact P8.
+  - exact P9.
+  - exact P10.
+Qed.
+
+(* ------------------------------------------------------------------ EMS policy as a single-dimension rule *)
+
+Lemma ems_server_refuses_iff (s : cfg) (h : hello) :
+  negb (c_ems s =? g11_ems_require) || (h_ems h && negb (c_ems s =? g11_ems_disable)) = false <->
+  c_ems s = g11_ems_require /\ h_ems h = false.
+Proof.
+  unfold g11_ems_require, g11_ems_disable. split.
+  - intro H. apply orb_false_iff in H. destruct H as [H1 H2]. apply negb_false_iff, N.eqb_eq in H1.
+    split; [exact H1|]. rewrite H1 in H2. cbn in H2. now rewrite andb_true_r in H2.
+  - intros [H1 H2]. rewrite H1, H2. reflexivity.
+Qed.
+
+Lemma ems_client_refuses_iff (c : cfg) (ext : bool) :
+  negb (c_ems c =? g11_ems_require) || (ext && negb (c_ems c =? g11_ems_disable)) = false <->
+  c_ems c = g11_ems_require /\ ext = false.
+Proof.
+  unfold g11_ems_require, g11_ems_disable. split.
+  - intro H. apply orb_false_iff in H. destruct H as [H1 H2]. apply negb_false_iff, N.eqb_eq in H1.
+    split; [exact H1|]. rewrite H1 in H2. cbn in H2. now rewrite andb_true_r in H2.
+  - intros [H1 H2]. rewrite H1, H2. reflexivity.
+Qed.
+
+(* ------------------------------------------------------------------ consequences of in_policy: an empty intersection never completes *)
+
+Theorem empty_intersection_never_completes c s seeded o :
+  negotiate c s seeded = Some (Ok o) ->
+  (exists v, version_allowed c v /\ version_allowed s v) /\
+  (exists x, suite_enabled c x /\ suite_enabled s x /\ fits_key (c_key s) x = true) /\
+  (o_group o <> 0 -> exists g, In g (eff_curves c) /\ In g (eff_curves s)) /\
+  (o_srtp o <> 0 -> exists p, In p (c_srtp c) /\ In p (c_srtp s)) /\
+  (o_alpn o <> 0 -> exists p, In p (c_alpn c) /\ In p (c_alpn s)).
+Proof.
+  intro H. apply in_policy_holds in H. destruct H as [P1 P2 P3 P4 P5 P6 P7 P8 P9].
+  split; [exists (o_version o); exact P1|].
+  split; [exists (o_suite o); tauto|].
+  split; [intro Hn; exists (o_group o); auto|].
+  split; [intro Hn; exists (o_srtp o); auto|].
+  intro Hn; exists (o_alpn o); auto.
+Qed.
+
+(* ------------------------------------------------------------------ which alerts a refusal can carry *)
+
+Definition negotiation_alerts : list N :=
+  [g11_alert_protocol_version; g11_alert_insufficient_security; g11_alert_no_application_protocol;
+   g11_alert_unsupported_extension; g11_alert_handshake_failure; g11_alert_illegal_parameter;
+   g11_alert_missing_extension; g11_alert_internal_error; g11_alert_no_certificate; g11_alert_bad_certificate;
+   g11_alert_certificate_required].
+
+(* ------------------------------------------------------------------ witnesses: where the property text does NOT hold *)
+
+Definition cfg_default : cfg :=
+  mkCfg 0 0 None false false 0 1027 0 false [] [] [] 0 [] [] [] None false false.
+
+Definition with_key (c : cfg) (k : N) : cfg :=
+  mkCfg (c_min c) (c_max c) (c_suites c) (c_psk c) (c_hint c) k (c_chain_sig c) (c_client_auth c) (c_skip_verify c)
+        (c_curves c) (c_sigs c) (c_csigs c) (c_ems c) (c_srtp c) (c_mki c) (c_alpn c) (c_cid c) (c_store c) (c_skip_hv c).
+
+(* (1) "fails on both sides with an alert": a server whose suite list does not fit its own key type
+   gives up in HandshakeContext without sending anything *)
+Definition w_silent_c : cfg := cfg_default.
+Definition w_silent_s : cfg :=
+  mkCfg 0 0 (Some [49199]) false false 1 1027 0 false [] [] [] 0 [] [] [] None false false.
+
+Theorem failure_without_alert_refuted :
+  exists c s, negotiate c s false = Some (Silent Server) /\
+              (forall x, suite_enabled c x -> suite_enabled s x -> fits_key (c_key s) x = false).
+Proof.
+  exists w_silent_c, w_silent_s. split; [vm_compute; reflexivity|].
+  intros x _ Hx. unfold suite_enabled, w_silent_s in Hx. cbn in Hx. destruct Hx as [Hx|[]]. subst x.
+  vm_compute. reflexivity.
+Qed.
+
+(* (2) DTLS 1.3 with an RSA key: the only schemes selection accepts cannot be encoded in CertificateVerify *)
+Definition w_rsa13_c : cfg :=
+  mkCfg 3 3 None false false 0 1027 0 false [] [] [] 0 [] [] [] None false false.
+Definition w_rsa13_s : cfg :=
+  mkCfg 3 3 None false false 3 1027 0 false [] [] [] 0 [] [] [] None false false.
+
+Theorem rsa_dtls13_fails_silently_refuted :
+  negotiate w_rsa13_c w_rsa13_s false = Some (Silent Server) /\
+  (forall x, In x g11_default_sigs -> sig_fits true 3 x = true -> sig_encodable x = false).
+Proof.
+  split; [vm_compute; reflexivity|].
+  intros x Hx. unfold g11_default_sigs in Hx. cbn in Hx.
+  repeat (destruct Hx as [Hx|Hx]; [subst x; vm_compute; intro; congruence|]). destruct Hx.
+Qed.
+
+(* (3) "signature schemes are ones both honest sides allow": the client's CertificateVerify uses a scheme
+   taken from the SERVER's list only *)
+Definition w_csig_c : cfg :=
+  mkCfg 0 0 None false false 2 1027 0 true [] [1283; 2055] [] 0 [] [] [] None false false.
+Definition w_csig_s : cfg :=
+  mkCfg 0 0 None false false 1 1027 2 false [] [] [] 0 [] [] [] None false false.
+
+Theorem client_signature_outside_own_policy_refuted :
+  exists c s o, negotiate c s false = Some (Ok o) /\ o_csig o <> 0 /\ ~ sig_allowed c (o_csig o).
+Proof.
+  exists w_csig_c, w_csig_s.
+  destruct (negotiate w_csig_c w_csig_s false) as [[o| |]|] eqn:E; try (vm_compute in E; discriminate).
+  exists o. split; [reflexivity|]. vm_compute in E. inversion E; subst o. cbn. split; [discriminate|].
+  unfold sig_allowed. cbn. intros [H|[H|[]]]; discriminate.
+Qed.
+
+(* (4) ALPN on DTLS 1.3: disjoint lists complete, nothing is negotiated *)
+Definition w_alpn_c : cfg :=
+  mkCfg 3 3 None false false 0 1027 0 false [] [] [] 0 [] [] [1] None false false.
+Definition w_alpn_s : cfg :=
+  mkCfg 3 3 None false false 1 1027 0 false [] [] [] 0 [] [] [2] None false false.
+
+Theorem alpn_disjoint_completes_on_dtls13_refuted :
+  exists c s o, negotiate c s false = Some (Ok o) /\ c_alpn c <> [] /\ c_alpn s <> [] /\
+                (forall p, In p (c_alpn c) -> ~ In p (c_alpn s)) /\ o_alpn o = 0.
+Proof.
+  exists w_alpn_c, w_alpn_s.
+  destruct (negotiate w_alpn_c w_alpn_s false) as [[o| |]|] eqn:E; try (vm_compute in E; discriminate).
+  exists o. split; [reflexivity|]. vm_compute in E. inversion E; subst o. cbn.
+  repeat split; try discriminate. intros p [Hp|[]] [Hq|[]]. subst. discriminate.
+Qed.
+
+(* ... whereas on DTLS 1.2 the same lists are refused with no_application_protocol *)
+Theorem alpn_disjoint_refused_on_dtls12 :
+  negotiate (with_key cfg_default 0) (with_key cfg_default 1) false <> None /\
+  negotiate (mkCfg 0 0 None false false 0 1027 0 false [] [] [] 0 [] [] [1] None false false)
+            (mkCfg 0 0 None false false 1 1027 0 false [] [] [] 0 [] [] [2] None false false) false
+  = Some (Fail Server g11_alert_no_application_protocol).
+Proof. split; [vm_compute; discriminate | vm_compute; reflexivity]. Qed.
+
+(* (5) a server ignores the client's signature_algorithms on DTLS 1.2: a common scheme exists, yet the
+   handshake is refused by the client (insufficient_security) *)
+Theorem common_signature_scheme_yet_refused :
+  exists c s x, negotiate c s false = Some (Fail Client g11_alert_insufficient_security) /\
+                sig_allowed c x /\ sig_allowed s x /\ sig_fits false (c_key s) x = true.
+Proof.
+  exists (mkCfg 0 0 None false false 0 1027 0 false [] [1027] [] 0 [] [] [] None false false),
+         (mkCfg 0 0 None false false 2 1027 0 false [] [1283; 1027] [] 0 [] [] [] None false false), 1027.
+  split; [vm_compute; reflexivity|]. unfold sig_allowed. cbn. repeat split; auto. 
+Qed.
+
+(* ------------------------------------------------------------------ whose order decides *)
+
+(* cipher suite: the CLIENT's order, on both versions (FindMatchingCipherSuite(client list, local list)) *)
+Lemma server12_suite_choice k ss h r f :
+  server12 k ss h r = ROk f ->
+  first_common (filter (fun x => s_supports x v12) (filter known_suite (h_suites h))) ss = Some (f_suite f).
+Proof.
+  unfold server12. cbv zeta. intro H.
+  rstepn H u0 E. rstepn H suite E0. rstepn H group E1. rstepn H u2 E2. rstepn H tr E3.
+  destruct tr as [[profile echo] peer]. cbn beta iota in H.
+  rstepn H proto E4. rstepn H u5 E5. apply of_opt_ok in E0. rewrite E0. f_equal.
+  destruct (r && h_session h && c_store (k_cfg k)).
+  - now inversion H.
+  - destruct (s_auth suite =? g11_auth_certificate).
+    + rstepn H u6 E6. rstepn H sg E7. now inversion H.
+    + now inversion H.
+Qed.
+
+Lemma server13_choices k ss h f :
+  server13 k ss h = ROk f ->
+  first_common (filter known_suite (h_suites h)) ss = Some (f_suite f) /\
+  (* key-exchange group: the SERVER's order on DTLS 1.3 *)
+  first_common (k_curves k) (match h_groups h with Some g => g | None => [] end) = Some (f_group f) /\
+  (* signature scheme: the client's order over the common schemes *)
+  select_sig true (inter (filter sig_known (h_sigs h)) (k_sigs k)) (c_key (k_cfg k)) = Some (f_sig f).
+Proof.
+  unfold server13. cbv zeta. intro H.
+  rstepn H u0 E. rstepn H suite E0. rstepn H u1 E1. rstepn H u2 E2. rstepn H u3 E3.
+  rstepn H group E4. rstepn H u5 E5. rstepn H u6 E6. rstepn H sg E7. rstepn H tr E8.
+  destruct tr as [[profile echo] peer]. cbn beta iota in H.
+  destruct (sig_encodable sg); cbn [negb] in H; [|discriminate].
+  inversion H; subst; clear H. cbn.
+  apply of_opt_ok in E0, E4, E7. now repeat split.
+Qed.
+
+(* key-exchange group on DTLS 1.2: the CLIENT's order (selectEllipticCurve walks the remote list) *)
+Lemma select_curve_client_preference local remote g :
+  select_curve local remote = Some g ->
+  exists pre post, remote = pre ++ g :: post /\ (forall y, In y pre -> ~ In y (curves12 local)).
+Proof. unfold select_curve. apply first_common_first. Qed.
+
+(* ------------------------------------------------------------------ highest version, stated on the option sets *)
+
+Theorem negotiated_version_is_highest_cfg c s seeded o ck sk :
+  build true c = Some ck -> build false s = Some sk -> negotiate c s seeded = Some (Ok o) ->
+  forall w, (w = v12 \/ w = v13) ->
+    in_range (k_min ck) (k_max ck) w = true -> in_range (k_min sk) (k_max sk) w = true -> w <= o_version o.
+Proof.
+  intros Bc Bs H. unfold negotiate in H. rewrite Bc, Bs in H. inversion H as [H1].
+  apply build_spec in Bc, Bs.
+  exact (negotiated_version_is_highest ck sk seeded o (bf_wf _ _ Bc) (bf_wf _ _ Bs) H1).
+Qed.
+
+(* a server never answers with an extension that was not offered - on the server's side, for ANY hello
+   (DTLS 1.2: FinalizeServerHello checks it; DTLS 1.3: by construction, for a consistently parsed hello) *)
+Theorem server12_no_unsolicited_ext k ss h r f :
+  server12 k ss h r = ROk f ->
+  forall e, In e (f_sh_exts f) -> In e (h_exts h) \/ (e = g11_ext_renegotiation_info /\ h_scsv h = true).
+Proof.
+  intro H. apply server12_spec in H. apply validate_response_exts_spec. now destruct H.
+Qed.
+
+Theorem server13_no_unsolicited_ext k ss h f :
+  server13 k ss h = ROk f -> hello_wf h ->
+  forall e, In e (f_sh_exts f ++ f_ee_exts f) -> In e (h_exts h) \/ (e = g11_ext_renegotiation_info /\ h_scsv h = true).
+Proof.
+  intros H W e He. apply server13_spec in H. destruct H. destruct (s13_exts0 W) as [X1 X2].
+  apply in_app_or in He. destruct He as [He|He];
+    [exact (proj1 (validate_response_exts_spec h _) X1 e He) | exact (proj1 (validate_response_exts_spec h _) X2 e He)].
+Qed.
+
+(* the hellos a pion client builds are consistent *)
+Ltac in_list := repeat rewrite in_app_iff; cbn [In opt_ext]; intuition auto.
+
+Lemma pion_hello_wf ck h :
+  (h = client_hello13 ck \/ exists b, h = client_hello12 ck b) -> hello_wf h.
+Proof.
+  intros [Hh|[b Hh]]; subst h; unfold hello_wf, client_hello13, client_hello12;
+    cbn [h_exts h_versions h_shares h_cid h_srtp].
+  - repeat split; intro Hn.
+    + in_list.
+    + in_list.
+    + destruct (c_cid (k_cfg ck)); [|congruence]. cbn [nonempty]. in_list.
+    + destruct (nonempty (c_srtp (k_cfg ck))) eqn:E; [|congruence]. in_list.
+  - repeat split; intro Hn; try congruence.
+    + destruct (c_cid (k_cfg ck)); [|congruence]. cbn [nonempty]. in_list.
+    + destruct (nonempty (c_srtp (k_cfg ck))) eqn:E; [|congruence]. in_list.
+Qed.
